@@ -1,1 +1,3 @@
+pub mod c01;
 pub mod c12;
+pub mod grammar_rules;
